@@ -14,6 +14,7 @@ From Coq Require Import Init.Byte.
 From FFS Require Import Base.Res Base.Bytes Wallet.Model Wallet.Spec Wallet.Proofs Wallet.Proofs2 Wallet.Proofs3 Wallet.Proofs4.
 From Coq Require Import ZArith.
 From FFS Require Import Base.Keccak Crypto.Ecdsa Wallet.Proofs5 Wallet.WithC01 Wallet.WithC04.
+From FFS Require Import Wallet.Proofs6.
 Import ListNotations.
 
 Arguments after {key tx stx doc tsig} E c s h.
@@ -49,6 +50,8 @@ Arguments ext_nopanic {key tx stx doc tsig} E.
 Arguments op_ok {tx doc} o.
 Arguments obs_nopanic {key stx tsig} b.
 Arguments run {key tx stx doc tsig} E c s h.
+Arguments seen {tx doc} c fs h.
+Arguments cur_fs {tx doc} fs h.
 
 (* ------------------------------------------------------------------------------------------------
    1. Safety: in every reachable state a request naming A returns Ok only with a key whose address is
@@ -739,13 +742,47 @@ Example C08_nonvacuous_liveness_metadata :
   (exists s' k', GetWalletFile yE yc (after yE yc (init_state yfs) [ORefresh]) xB = (s', Ok k') /\ k' = xB).
 Proof.
   split; [|split].
-  - destruct (C08_liveness_static_metadata _ _ _ _ _ yE yc yfs yfiles yh xA (hexA ++ lit ".json") MJson
-                (lit "A") (lit "m/key-A") xA (lit "pw") xA) as (s' & k' & Hg & Hk & _ & Htd);
-      try exact yE_regex_law; try exact yfiles_names_ok; try (vm_compute; reflexivity); try (vm_compute; discriminate).
+  - (* every premise stated and computed by itself (the former "destruct ...; try vm_compute" spent 48 s in
+       failing attempts; wave 6) *)
+    assert (H1 : static yh = true) by (vm_compute; reflexivity).
+    assert (H2 : refreshed yh = true) by (vm_compute; reflexivity).
+    assert (H3 : fs_readdir yfs (c_path yc) = Ok yfiles) by (vm_compute; reflexivity).
+    assert (H4 : classify_format (resolved_format yc) = Some MJson) by (vm_compute; reflexivity).
+    assert (H5 : backing (rule_of yE yc) yfiles xA None = Some (hexA ++ lit ".json")) by (vm_compute; reflexivity).
+    assert (H6 : fs_readfile yfs (path_join yE (c_path yc) (hexA ++ lit ".json")) = Ok (lit "A")) by (vm_compute; reflexivity).
+    assert (H7 : meta_parse yE MJson (lit "A") = true) by (vm_compute; reflexivity).
+    assert (H8 : goTemplateToString yE MJson (lit "A") (c_key_prop yc) = lit "m/key-A") by (vm_compute; reflexivity).
+    assert (H9 : lit "m/key-A" <> []) by (vm_compute; discriminate).
+    assert (H10 : if bytes_eqb (lit "m/key-A") (path_join yE (c_path yc) (hexA ++ lit ".json")) then xA = lit "A"
+                  else fs_readfile yfs (lit "m/key-A") = Ok xA) by (vm_compute; reflexivity).
+    assert (H11 : spec_password (fs_readfile yfs) (c_pw_trim yc) (trim_space yE)
+                    (goTemplateToString yE MJson (lit "A") (c_pw_prop yc)) (c_default_pw_file yc) = Some (lit "pw"))
+      by (vm_compute; reflexivity).
+    assert (H12 : read_wallet yE xA (lit "pw") = Ok xA) by (vm_compute; reflexivity).
+    destruct (C08_liveness_static_metadata _ _ _ _ _ yE yc yfs yfiles yh xA (hexA ++ lit ".json") MJson
+                (lit "A") (lit "m/key-A") xA (lit "pw") xA yE_regex_law eq_refl H3 yfiles_names_ok H1 H2
+                H4 H5 H6 H7 H8 H9 H10 H11 H12 eq_refl) as (s' & k' & Hg & Hk & _ & Htd).
     exists s', k'. split; [exact Hg|]. split; [exact Hk|]. intros d. rewrite Htd. simpl. reflexivity.
-  - destruct (C08_liveness_static_metadata _ _ _ _ _ yE yc yfs yfiles yh xB (hexB ++ lit ".json") MJson
-                (lit "B") (lit "m/key-B") xB (lit "pw") xB) as (s' & k' & Hg & Hk & Htx & _);
-      try exact yE_regex_law; try exact yfiles_names_ok; try (vm_compute; reflexivity); try (vm_compute; discriminate).
+  - (* every premise stated and computed by itself (the former "destruct ...; try vm_compute" spent 48 s in
+       failing attempts; wave 6) *)
+    assert (H1 : static yh = true) by (vm_compute; reflexivity).
+    assert (H2 : refreshed yh = true) by (vm_compute; reflexivity).
+    assert (H3 : fs_readdir yfs (c_path yc) = Ok yfiles) by (vm_compute; reflexivity).
+    assert (H4 : classify_format (resolved_format yc) = Some MJson) by (vm_compute; reflexivity).
+    assert (H5 : backing (rule_of yE yc) yfiles xB None = Some (hexB ++ lit ".json")) by (vm_compute; reflexivity).
+    assert (H6 : fs_readfile yfs (path_join yE (c_path yc) (hexB ++ lit ".json")) = Ok (lit "B")) by (vm_compute; reflexivity).
+    assert (H7 : meta_parse yE MJson (lit "B") = true) by (vm_compute; reflexivity).
+    assert (H8 : goTemplateToString yE MJson (lit "B") (c_key_prop yc) = lit "m/key-B") by (vm_compute; reflexivity).
+    assert (H9 : lit "m/key-B" <> []) by (vm_compute; discriminate).
+    assert (H10 : if bytes_eqb (lit "m/key-B") (path_join yE (c_path yc) (hexB ++ lit ".json")) then xB = lit "B"
+                  else fs_readfile yfs (lit "m/key-B") = Ok xB) by (vm_compute; reflexivity).
+    assert (H11 : spec_password (fs_readfile yfs) (c_pw_trim yc) (trim_space yE)
+                    (goTemplateToString yE MJson (lit "B") (c_pw_prop yc)) (c_default_pw_file yc) = Some (lit "pw"))
+      by (vm_compute; reflexivity).
+    assert (H12 : read_wallet yE xB (lit "pw") = Ok xB) by (vm_compute; reflexivity).
+    destruct (C08_liveness_static_metadata _ _ _ _ _ yE yc yfs yfiles yh xB (hexB ++ lit ".json") MJson
+                (lit "B") (lit "m/key-B") xB (lit "pw") xB yE_regex_law eq_refl H3 yfiles_names_ok H1 H2
+                H4 H5 H6 H7 H8 H9 H10 H11 H12 eq_refl) as (s' & k' & Hg & Hk & Htx & _).
     exists s', k'. split; [exact Hg|]. split; [exact Hk|]. intros raw t Hp. rewrite (Htx raw t Hp). simpl. reflexivity.
   - apply (C08_liveness_metadata _ _ _ _ _ yE yc yfs [ORefresh] xB (hexB ++ lit ".json") MJson
              (lit "B") (lit "m/key-B") xB (lit "pw") xB);
@@ -837,4 +874,305 @@ Example C08_nonvacuous_c04 :
 Proof.
   destruct toy_world4_ok as (H1 & H2 & H3 & H4 & H5).
   repeat (split; [assumption|]). exact toy_request4_signs.
+Qed.
+
+(* ================================================================================================
+   6. (wave 6) The account list, the backing files and liveness along ANY history: the directory may
+      change, listener events may arrive, scans may fail.  The guard [static h] of section 5 is replaced by
+      functions of the INPUTS only (Wallet/Proofs6.v):
+        seen c fs h    the entries the wallet was shown along h, in order: the listing of every scan that
+                       could read the directory (nothing for a scan that could not), the os.Stat result of
+                       every listener event; OSetFs changes the directory the later scans read;
+        cur_fs fs h    the directory after h (the argument of the last OSetFs, fs if there is none).
+   ================================================================================================ *)
+
+(* the account list after ANY history is the specification's list of what the wallet was shown (first
+   occurrences, in order), every address is backed by the last regular file shown that names it, and the
+   wallet reads the current directory.  This is the exact content of "cumulative": it contains
+   C08_accounts_exact_any_history / C08_listed_file_any_history (there [seen] is the one listing, repeated)
+   and says what the list is after additions, removals, renames and failed scans. *)
+Theorem C08_accounts_exact_changing_directory :
+  forall (key tx stx doc tsig : Type) (E : ext key tx stx doc tsig) (c : config)
+         (fs : fsys) (h : list (op tx doc)),
+    regex_law E -> constructed E c -> names_ok (seen c fs h) ->
+    GetAccounts (after E c (init_state fs) h) = spec_accounts (rule_of E c) (seen c fs h) /\
+    (forall a, assoc_get a (st_map (after E c (init_state fs) h)) = backing (rule_of E c) (seen c fs h) a None) /\
+    st_fs (after E c (init_state fs) h) = cur_fs fs h.
+Proof. exact accounts_exact_dynamic. Qed.
+Print Assumptions C08_accounts_exact_changing_directory.
+
+(* as a set: an address is listed iff a regular file the wallet was shown names it (Spec.name_address) *)
+Theorem C08_listed_iff_shown :
+  forall (key tx stx doc tsig : Type) (E : ext key tx stx doc tsig) (c : config)
+         (fs : fsys) (h : list (op tx doc)) (a : bytes),
+    regex_law E -> constructed E c -> names_ok (seen c fs h) ->
+    (In a (GetAccounts (after E c (init_state fs) h)) <->
+     exists f, In f (seen c fs h) /\ snd f = false /\ name_address (rule_of E c) (fst f) = Some a).
+Proof. exact accounts_listed_iff_shown. Qed.
+Print Assumptions C08_listed_iff_shown.
+
+(* EXACTNESS WHEN NO ADDRESS DISAPPEARS.  Any history h1 (with directory changes and listener events), a
+   scan that reads [files], then any history h2 of requests / rescans / evictions.  If every address named by
+   a regular file shown during h1 is still named by a regular file of [files] — files were only added, or
+   replaced by files naming the same address — the account list is, as a set and without duplicates,
+   exactly the specification's list of the CURRENT listing.  (The order is that of first appearance over
+   the whole history, which no function of the current listing alone can give.) *)
+Theorem C08_accounts_exact_growing_directory :
+  forall (key tx stx doc tsig : Type) (E : ext key tx stx doc tsig) (c : config)
+         (fs : fsys) (h1 h2 : list (op tx doc)) (files : list (bytes * bool)),
+    regex_law E -> constructed E c -> names_ok (seen c fs h1) ->
+    fs_readdir (cur_fs fs h1) (c_path c) = Ok files -> names_ok files -> static h2 = true ->
+    (forall a, In a (spec_matches (rule_of E c) (seen c fs h1)) -> In a (spec_matches (rule_of E c) files)) ->
+    let s := after E c (init_state fs) (h1 ++ ORefresh :: h2) in
+    NoDup (GetAccounts s) /\
+    (forall a, In a (GetAccounts s) <-> In a (spec_accounts (rule_of E c) files)) /\
+    st_fs s = cur_fs fs h1.
+Proof. exact accounts_exact_growing. Qed.
+Print Assumptions C08_accounts_exact_growing_directory.
+
+(* right after a scan of a changed directory, an address the CURRENT listing names is backed by the last
+   regular file of the current listing naming it — whatever was shown before (renamed / replaced files) *)
+Theorem C08_listed_file_after_scan :
+  forall (key tx stx doc tsig : Type) (E : ext key tx stx doc tsig) (c : config)
+         (fs : fsys) (h1 : list (op tx doc)) (files : list (bytes * bool)) (a fn : bytes),
+    regex_law E -> constructed E c -> names_ok (seen c fs h1) ->
+    fs_readdir (cur_fs fs h1) (c_path c) = Ok files -> names_ok files ->
+    backing (rule_of E c) files a None = Some fn ->
+    assoc_get a (st_map (after E c (init_state fs) (h1 ++ [ORefresh]))) = Some fn.
+Proof. exact listed_backing_after_scan. Qed.
+Print Assumptions C08_listed_file_after_scan.
+
+(* LIVENESS ALONG ANY HISTORY (C08_liveness_static without [static h] / [refreshed h] and without a premise
+   about the wallet's state): if the last regular file naming A that the wallet was shown holds, in the
+   CURRENT directory, A's key, and a usable password is present in the current directory, then
+   GetWalletFile, Sign and SignTypedDataV4 naming A succeed with one key of A. *)
+Theorem C08_liveness_any_history :
+  forall (key tx stx doc tsig : Type) (E : ext key tx stx doc tsig) (c : config)
+         (fs : fsys) (h : list (op tx doc)) (a fn content pw : bytes) (k : key),
+    regex_law E -> constructed E c -> names_ok (seen c fs h) ->
+    classify_format (resolved_format c) = None ->                       (* no metadata *)
+    backing (rule_of E c) (seen c fs h) a None = Some fn ->             (* the last regular file shown naming A *)
+    fs_readfile (cur_fs fs h) (path_join E (c_path c) fn) = Ok content ->
+    spec_password (fs_readfile (cur_fs fs h)) (c_pw_trim c) (trim_space E)
+                  (plain_password_file E c a) (c_default_pw_file c) = Some pw ->
+    read_wallet E content pw = Ok k -> addr_of E k = a ->
+    let s := after E c (init_state fs) h in
+    exists (s' : state key) (k' : key),
+      GetWalletFile E c s a = (s', Ok k') /\ addr_of E k' = a /\
+      (forall raw (t : tx), parse_from E raw = Some a -> Sign E c s raw t = (s', sign_tx E k' t)) /\
+      (forall d : doc, SignTypedDataV4 E c s a d = (s', sign_td E k' d)).
+Proof. exact liveness_dynamic_plain. Qed.
+Print Assumptions C08_liveness_any_history.
+
+Theorem C08_liveness_any_history_metadata :
+  forall (key tx stx doc tsig : Type) (E : ext key tx stx doc tsig) (c : config)
+         (fs : fsys) (h : list (op tx doc)) (a fn : bytes) (m : mfmt)
+         (content kf kcontent pw : bytes) (k : key),
+    regex_law E -> constructed E c -> names_ok (seen c fs h) ->
+    let primary := path_join E (c_path c) fn in
+    classify_format (resolved_format c) = Some m ->                     (* toml / json / yaml metadata *)
+    backing (rule_of E c) (seen c fs h) a None = Some fn ->
+    fs_readfile (cur_fs fs h) primary = Ok content ->
+    meta_parse E m content = true ->
+    goTemplateToString E m content (c_key_prop c) = kf -> kf <> [] ->
+    (if bytes_eqb kf primary then kcontent = content else fs_readfile (cur_fs fs h) kf = Ok kcontent) ->
+    spec_password (fs_readfile (cur_fs fs h)) (c_pw_trim c) (trim_space E)
+                  (goTemplateToString E m content (c_pw_prop c)) (c_default_pw_file c) = Some pw ->
+    read_wallet E kcontent pw = Ok k -> addr_of E k = a ->
+    let s := after E c (init_state fs) h in
+    exists (s' : state key) (k' : key),
+      GetWalletFile E c s a = (s', Ok k') /\ addr_of E k' = a /\
+      (forall raw (t : tx), parse_from E raw = Some a -> Sign E c s raw t = (s', sign_tx E k' t)) /\
+      (forall d : doc, SignTypedDataV4 E c s a d = (s', sign_td E k' d)).
+Proof. exact liveness_dynamic_metadata. Qed.
+Print Assumptions C08_liveness_any_history_metadata.
+
+(* COMPLETENESS AFTER A SCAN, ANY HISTORY: the half of "exactly" that survives removals.  After a scan that
+   reads [files] — whatever happened before — and any further requests / rescans / evictions, every address
+   the specification lists for the CURRENT listing is listed ... *)
+Theorem C08_accounts_complete_after_scan :
+  forall (key tx stx doc tsig : Type) (E : ext key tx stx doc tsig) (c : config)
+         (fs : fsys) (h1 h2 : list (op tx doc)) (files : list (bytes * bool)) (a : bytes),
+    regex_law E -> constructed E c -> names_ok (seen c fs h1) ->
+    fs_readdir (cur_fs fs h1) (c_path c) = Ok files -> names_ok files -> static h2 = true ->
+    In a (spec_accounts (rule_of E c) files) ->
+    In a (GetAccounts (after E c (init_state fs) (h1 ++ ORefresh :: h2))).
+Proof. exact accounts_complete_after_scan. Qed.
+Print Assumptions C08_accounts_complete_after_scan.
+
+(* ... and every listed address is one the specification lists for the current listing or listed for what
+   the wallet was shown before (the stale ones: C08_accounts_exact_refuted_after_removal) *)
+Theorem C08_accounts_sound_after_scan :
+  forall (key tx stx doc tsig : Type) (E : ext key tx stx doc tsig) (c : config)
+         (fs : fsys) (h1 h2 : list (op tx doc)) (files : list (bytes * bool)) (a : bytes),
+    regex_law E -> constructed E c -> names_ok (seen c fs h1) ->
+    fs_readdir (cur_fs fs h1) (c_path c) = Ok files -> names_ok files -> static h2 = true ->
+    In a (GetAccounts (after E c (init_state fs) (h1 ++ ORefresh :: h2))) ->
+    In a (spec_accounts (rule_of E c) files) \/ In a (spec_accounts (rule_of E c) (seen c fs h1)).
+Proof. exact accounts_sound_after_scan. Qed.
+Print Assumptions C08_accounts_sound_after_scan.
+
+(* ---------- non-vacuity: the first world with a directory that changes ----------
+   zfs2: the directory of xfs plus 3333…33.key (the key of C) and 3333…33.pw;
+   zfs3: A's key file was RENAMED to 0x1111…11.key (same address, other name), B's files were removed, a
+         file with an empty-looking stem ".key" appeared, and the directory of another path is unreadable. *)
+Definition zfiles2 : list (bytes * bool) :=
+  xfiles ++ [ (hexC ++ lit ".key", false); (hexC ++ lit ".pw", false) ].
+Definition zfs2 : fsys :=
+  {| fs_readdir := fun d => if bytes_eqb d (lit "k") then Ok zfiles2 else Err 1%nat;
+     fs_readfile := fun p =>
+       if bytes_eqb p (lit "k/" ++ hexC ++ lit ".key") then Ok xC
+       else if bytes_eqb p (lit "k/" ++ hexC ++ lit ".pw") then Ok (lit "pw")
+       else fs_readfile xfs p |}.
+Definition zfiles3 : list (bytes * bool) :=
+  [ (lit ".key", false); (s_0x ++ hexA ++ lit ".key", false); (hexA ++ lit ".pw", false);
+    (hexC ++ lit ".key", false); (hexC ++ lit ".pw", false) ].
+Definition zfs3 : fsys :=
+  {| fs_readdir := fun d => if bytes_eqb d (lit "k") then Ok zfiles3 else Err 1%nat;
+     fs_readfile := fun p =>
+       if bytes_eqb p (lit "k/" ++ s_0x ++ hexA ++ lit ".key") then Ok xA
+       else if bytes_eqb p (lit "k/" ++ hexA ++ lit ".pw") then Ok (lit "pw")
+       else if bytes_eqb p (lit "k/" ++ hexC ++ lit ".key") then Ok xC
+       else if bytes_eqb p (lit "k/" ++ hexC ++ lit ".pw") then Ok (lit "pw")
+       else Err 1%nat |}.
+(* an unreadable directory: the scan fails and shows nothing *)
+Definition zfs_err : fsys := {| fs_readdir := fun _ => Err 1%nat; fs_readfile := fun _ => Err 1%nat |}.
+
+(* scan; request; the directory grows; a listener event for C's key file; request for C; a scan fails;
+   the directory changes again (rename of A's file, removal of B's); scan *)
+Definition zh1 : list (op unit unit) :=
+  [ORefresh; OGetWalletFile _ _ xA; OSetFs _ _ zfs2; OFsEvent _ _ (hexC ++ lit ".key") false;
+   OGetWalletFile _ _ xC; OSetFs _ _ zfs_err; ORefresh; OSetFs _ _ zfs3].
+Definition zh : list (op unit unit) := zh1 ++ [ORefresh].
+
+Lemma zh_names_ok : names_ok (seen xc xfs zh).
+Proof. vm_compute. repeat (constructor; [intro H; discriminate H|]). constructor. Qed.
+
+(* the hypotheses of C08_accounts_exact_changing_directory hold for zh; the list is [A; B; C] (B is stale:
+   removed from the directory, still listed), A is now backed by the renamed file, and the failed scan
+   left its observation in the run *)
+Example C08_nonvacuous_changing_directory :
+  regex_law xE /\ constructed xE xc /\ names_ok (seen xc xfs zh) /\
+  spec_accounts (rule_of xE xc) (seen xc xfs zh) = [xA; xB; xC] /\
+  GetAccounts (after xE xc (init_state xfs) zh) = [xA; xB; xC] /\
+  backing (rule_of xE xc) (seen xc xfs zh) xA None = Some (s_0x ++ hexA ++ lit ".key") /\
+  assoc_get xA (st_map (after xE xc (init_state xfs) zh)) = Some (s_0x ++ hexA ++ lit ".key") /\
+  nth 6 (snd (run xE xc (init_state xfs) zh)) (BNone _ _ _) = BRefresh _ _ _ (Err EReadDir) /\
+  length (seen xc xfs zh) = 14%nat.
+Proof.
+  split; [exact xE_regex_law|]. split; [reflexivity|]. split; [exact zh_names_ok|].
+  destruct (C08_accounts_exact_changing_directory _ _ _ _ _ xE xc xfs zh xE_regex_law eq_refl zh_names_ok)
+    as (Hl & Hm & _).
+  split; [vm_compute; reflexivity|]. split; [rewrite Hl; vm_compute; reflexivity|].
+  split; [vm_compute; reflexivity|]. split; [rewrite Hm; vm_compute; reflexivity|].
+  split; vm_compute; reflexivity.
+Qed.
+
+(* liveness after the rename: the premises of C08_liveness_any_history hold for A on zh (the file is the
+   renamed one, read in the CURRENT directory zfs3), and for C — and they FAIL for the stale B, whose
+   backing file is gone *)
+Example C08_nonvacuous_liveness_any_history :
+  (exists s' k', GetWalletFile xE xc (after xE xc (init_state xfs) zh) xA = (s', Ok k') /\ k' = xA /\
+                 (forall d, SignTypedDataV4 xE xc (after xE xc (init_state xfs) zh) xA d = (s', Ok k'))) /\
+  (exists s' k', GetWalletFile xE xc (after xE xc (init_state xfs) zh) xC = (s', Ok k') /\ k' = xC) /\
+  snd (GetWalletFile xE xc (after xE xc (init_state xfs) zh) xB) = Err EWalletFailed.
+Proof.
+  split; [|split].
+  - destruct (C08_liveness_any_history _ _ _ _ _ xE xc xfs zh xA (s_0x ++ hexA ++ lit ".key") xA (lit "pw") xA
+                xE_regex_law eq_refl zh_names_ok) as (s' & k' & Hg & Hk & _ & Htd); try (vm_compute; reflexivity).
+    exists s', k'. split; [exact Hg|]. split; [exact Hk|exact Htd].
+  - destruct (C08_liveness_any_history _ _ _ _ _ xE xc xfs zh xC (hexC ++ lit ".key") xC (lit "pw") xC
+                xE_regex_law eq_refl zh_names_ok) as (s' & k' & Hg & Hk & _); try (vm_compute; reflexivity).
+    exists s', k'. split; [exact Hg|exact Hk].
+  - vm_compute. reflexivity.
+Qed.
+
+(* the growing-directory theorem: h1 = scan, request, the directory grows (zfs2); then a scan and requests.
+   Its "no address disappears" premise holds ([A; B] shown before, both named by zfiles2), the list is
+   {A, B, C} = the specification's list of the current listing; and the premise FAILS for the step to zfs3
+   (B disappears), where the conclusion fails too (B listed, not in the specification's list of zfiles3). *)
+Definition zg1 : list (op unit unit) := [ORefresh; OGetWalletFile _ _ xA; OSetFs _ _ zfs2].
+Definition zg2 : list (op unit unit) := [OGetWalletFile _ _ xC; ORefresh; OGetAccounts _ _; OEvict _ _ (addr_string xC)].
+
+Example C08_nonvacuous_growing_directory :
+  names_ok (seen xc xfs zg1) /\ fs_readdir (cur_fs xfs zg1) (c_path xc) = Ok zfiles2 /\ names_ok zfiles2 /\
+  static zg2 = true /\
+  (forall a, In a (spec_matches (rule_of xE xc) (seen xc xfs zg1)) -> In a (spec_matches (rule_of xE xc) zfiles2)) /\
+  spec_accounts (rule_of xE xc) zfiles2 = [xA; xB; xC] /\
+  (forall a, In a (GetAccounts (after xE xc (init_state xfs) (zg1 ++ ORefresh :: zg2))) <-> In a [xA; xB; xC]) /\
+  assoc_get xC (st_map (after xE xc (init_state xfs) (zg1 ++ [ORefresh]))) = Some (hexC ++ lit ".key") /\
+  (In xB (GetAccounts (after xE xc (init_state xfs) zh)) /\ ~ In xB (spec_accounts (rule_of xE xc) zfiles3)).
+Proof.
+  assert (N1 : names_ok (seen xc xfs zg1))
+    by (vm_compute; repeat (constructor; [intro H; discriminate H|]); constructor).
+  assert (N2 : names_ok zfiles2)
+    by (vm_compute; repeat (constructor; [intro H; discriminate H|]); constructor).
+  assert (K : forall a, In a (spec_matches (rule_of xE xc) (seen xc xfs zg1)) -> In a (spec_matches (rule_of xE xc) zfiles2)).
+  { intros a. vm_compute. intros H. repeat (destruct H as [H|H]; [subst a; auto 8|]). destruct H. }
+  split; [exact N1|]. split; [reflexivity|]. split; [exact N2|]. split; [reflexivity|]. split; [exact K|].
+  split; [vm_compute; reflexivity|]. split.
+  - intros a.
+    destruct (C08_accounts_exact_growing_directory _ _ _ _ _ xE xc xfs zg1 zg2 zfiles2 xE_regex_law eq_refl N1 eq_refl N2 eq_refl K)
+      as (_ & Hiff & _).
+    rewrite (Hiff a). replace (spec_accounts (rule_of xE xc) zfiles2) with [xA; xB; xC] by (vm_compute; reflexivity).
+    tauto.
+  - split.
+    + apply (C08_listed_file_after_scan _ _ _ _ _ xE xc xfs zg1 zfiles2 xC (hexC ++ lit ".key") xE_regex_law eq_refl N1 eq_refl N2).
+      vm_compute. reflexivity.
+    + split; [vm_compute; auto|]. vm_compute. intros [H|[H|[]]]; discriminate H.
+Qed.
+
+(* completeness / soundness after the last scan of zh = zh1 ++ [ORefresh] (current listing zfiles3): the
+   premises hold; A and C are in the specification's list of zfiles3 and therefore listed; the listed B is
+   not in it but in the list of what was shown before *)
+Example C08_nonvacuous_after_scan :
+  names_ok (seen xc xfs zh1) /\ fs_readdir (cur_fs xfs zh1) (c_path xc) = Ok zfiles3 /\ names_ok zfiles3 /\
+  spec_accounts (rule_of xE xc) zfiles3 = [xA; xC] /\
+  In xC (GetAccounts (after xE xc (init_state xfs) (zh1 ++ [ORefresh]))) /\
+  (In xB (GetAccounts (after xE xc (init_state xfs) (zh1 ++ [ORefresh]))) /\
+   In xB (spec_accounts (rule_of xE xc) (seen xc xfs zh1))).
+Proof.
+  assert (N1 : names_ok (seen xc xfs zh1))
+    by (vm_compute; repeat (constructor; [intro H; discriminate H|]); constructor).
+  assert (N3 : names_ok zfiles3)
+    by (vm_compute; repeat (constructor; [intro H; discriminate H|]); constructor).
+  split; [exact N1|]. split; [reflexivity|]. split; [exact N3|]. split; [vm_compute; reflexivity|]. split.
+  - apply (C08_accounts_complete_after_scan _ _ _ _ _ xE xc xfs zh1 [] zfiles3 xC xE_regex_law eq_refl N1 eq_refl N3 eq_refl).
+    vm_compute. auto.
+  - split; vm_compute; auto.
+Qed.
+
+(* PasswordPath and With0xPrefix (so far exercised by the differential run only): the configuration wc keeps
+   the password files in the directory p under 0x-prefixed names.  The directory changes after the first
+   scan (A's key file appears only then, announced by a listener event); the premises of
+   C08_liveness_any_history hold and the request succeeds; without the password directory it fails. *)
+Definition wc : config :=
+  {| c_path := lit "k"; c_default_pw_file := []; c_regex := []; c_primary_ext := lit ".key";
+     c_pw_ext := lit ".pw"; c_pw_path := lit "p"; c_pw_trim := false; c_with0x := true;
+     c_meta_format := lit "none"; c_key_prop := []; c_pw_prop := [] |}.
+Definition wfs0 : fsys :=
+  {| fs_readdir := fun d => if bytes_eqb d (lit "k") then Ok [] else Err 1%nat;
+     fs_readfile := fun _ => Err 1%nat |}.
+Definition wfs1 : fsys :=
+  {| fs_readdir := fun d => if bytes_eqb d (lit "k") then Ok [(hexA ++ lit ".key", false)] else Err 1%nat;
+     fs_readfile := fun p =>
+       if bytes_eqb p (lit "k/" ++ hexA ++ lit ".key") then Ok xA
+       else if bytes_eqb p (lit "p/" ++ s_0x ++ hexA ++ lit ".pw") then Ok (lit "pw")
+       else Err 1%nat |}.
+Definition wh : list (op unit unit) :=
+  [ORefresh; OGetAccounts _ _; OSetFs _ _ wfs1; OFsEvent _ _ (hexA ++ lit ".key") false].
+
+Example C08_nonvacuous_password_path_0x :
+  constructed xE wc /\ plain_password_file xE wc xA = lit "p/" ++ s_0x ++ hexA ++ lit ".pw" /\
+  GetAccounts (after xE wc (init_state wfs0) wh) = [xA] /\
+  (exists s' k', GetWalletFile xE wc (after xE wc (init_state wfs0) wh) xA = (s', Ok k') /\ k' = xA) /\
+  snd (GetWalletFile xE wc (after xE wc (init_state wfs0) (wh ++ [OSetFs _ _ xfs])) xA) = Err EWalletFailed.
+Proof.
+  assert (N : names_ok (seen wc wfs0 wh))
+    by (vm_compute; repeat (constructor; [intro H; discriminate H|]); constructor).
+  split; [reflexivity|]. split; [vm_compute; reflexivity|]. split; [vm_compute; reflexivity|]. split.
+  - destruct (C08_liveness_any_history _ _ _ _ _ xE wc wfs0 wh xA (hexA ++ lit ".key") xA (lit "pw") xA
+                xE_regex_law eq_refl N) as (s' & k' & Hg & Hk & _); try (vm_compute; reflexivity).
+    exists s', k'. split; [exact Hg|exact Hk].
+  - vm_compute. reflexivity.
 Qed.
